@@ -145,6 +145,23 @@ func genSched(tier string, seed uint64) {
 			emit("sched %s %s %s 1", d.format, d.hex, schedStr(c))
 		}
 	}
+	// a long run of empty reads strictly INSIDE a multi-byte payload (after its first byte has arrived): the bulk
+	// read keeps waiting for the rest, it neither gives up with partial data nor reports an error
+	for _, hx := range []string{"1b0102030405060708", "190102", "1a01020304", "3b0000000000000122", "fb400921fb54442d18", "fa40490fdb",
+		"4501020304 05", "65 68656c6c6f", "5f43010203ff", "c11a514b67b0"} {
+		hx = strings.ReplaceAll(hx, " ", "")
+		n := len(hx) / 2
+		for _, zeros := range []int{99, 101, 150} {
+			c := []int{1, 1}
+			for i := 0; i < zeros; i++ {
+				c = append(c, 0)
+			}
+			for i := 2; i < n; i++ {
+				c = append(c, 1)
+			}
+			emit("sched cbor %s %s 0", hx, schedStr(c))
+		}
+	}
 	// random documents, random schedules
 	nd := 3000
 	if tier == "thorough" {
